@@ -634,7 +634,7 @@ func runFar(c *core.Ctx, idx int) {
 		c.Count("far.ends_on_opposite_sides_in_the_last_binade")
 	}
 	forcedTol := 0.0
-	if !tiny && r.Chance(0.06) {
+	if !tiny && r.Chance(0.15) {
 		// aimed at the short cut ACROSS the segment that comes in from the far vertex: A (far away
 		// to the left) - B (its ordinary end) - C (far below B's level, left of B) - D (right of B,
 		// a little above its level) - E (left of B, above it). C-D-E passes round the tip B; the
@@ -645,7 +645,21 @@ func runFar(c *core.Ctx, idx int) {
 		if r.Bool() {
 			H = math.Pow(10, r.Range(300, 308.2))
 		}
-		a := geom.Point{X: -H, Y: sc * r.Range(-0.2, 0.2)}
+		ay := r.Range(-0.2, 0.2)
+		if r.Chance(0.6) {
+			// the window in which exactly ONE of the products H*dy overflows: the ordinary ordinates
+			// are of the size of MaxFloat64/H, and the far end is up to 1.5 such units off the level of B
+			// (the short cut C-E spans 9..14 sc in Y and its product with H must stay finite, while
+			// the far end lies more than MaxFloat64/H above or below C, so that H*(A.y-C.y) does not)
+			u := math.MaxFloat64 / H
+			sc = u * r.Range(0.001, 0.07)
+			ay = u / sc * r.Range(1.1, 30)
+			if r.Bool() {
+				ay = -ay
+			}
+			c.Count("far.short_cut_with_products_either_side_of_overflow")
+		}
+		a := geom.Point{X: -H, Y: sc * ay}
 		b := geom.Point{X: sc * r.Range(-0.1, 0.1), Y: sc * r.Range(-0.1, 0.1)}
 		cc := geom.Point{X: -sc * r.Range(0.8, 1.2), Y: -sc * r.Range(8, 12)}
 		d := geom.Point{X: sc * r.Range(0.5, 1.5), Y: sc * r.Range(0.2, 0.5)}
